@@ -32,5 +32,14 @@ for r in rows:
 n = len(rows)
 c = sum(1 for r in rows if r[2] == "caught")
 out += ["", "caught %d of %d evaluated (seed, property) pairs; `undecided` = the check refused to decide (lost anchor / construct outside the verified subset), `MISSED` = check passed." % (c, n)]
+hist = []
+for d in sorted(glob.glob(os.path.join(root, "*"))):
+    mp = os.path.join(d, "meta.json")
+    if os.path.isdir(d) and os.path.exists(mp):
+        h = json.load(open(mp)).get("evaluation_history")
+        if h:
+            hist.append("* %s: %s" % (os.path.basename(d), h))
+if hist:
+    out += ["", "## Evaluation history (what the first evaluation said, what was strengthened)", ""] + hist
 open(os.path.join(root, "RESULTS.md"), "w").write("\n".join(out) + "\n")
 print("\n".join(out[-3:]))
